@@ -489,9 +489,7 @@ class MailboxSet(MailboxSetInterface[MailboxData]):
 
     async def list_subscribed(self) -> ListTree:
         async with Subscriptions.with_read(self._path) as subs:
-            subscribed = frozenset(subs.subscribed)
-        mailboxes = [name for name in self._layout.list_folders(self.delimiter)
-                     if name in subscribed]
+            mailboxes = subs.subscribed
         return ListTree(self.delimiter).update('INBOX', *mailboxes)
 
     async def list_mailboxes(self) -> ListTree:
